@@ -428,7 +428,8 @@ def _get_comp_cls_media(comp_cls: Type["Component"]) -> Any:
             _resolve_media(curr_cls, comp_media)
 
         # Prepare base classes
-        media_input = getattr(curr_cls, "Media", None)
+        # NOTE: Only the `Media` that is defined on THIS class, not the one inherited from a parent class
+        media_input = vars(curr_cls).get("Media", None)
         media_extend = getattr(media_input, "extend", True)
 
         # This ensures the same behavior as Django's Media class, where:
